@@ -90,6 +90,9 @@ func stormCall(w *World, kind string, rng *rand.Rand, h, ci int, feedDones *[]ch
 			args.Dump = true
 			args.Backfill = 0
 		}
+		if rng.Intn(3) == 0 {
+			args.CheckpointPrefix = "cps" // the feed persists a checkpoint (a write of its own) when it ends
+		}
 		if err := startFeedOn(ds, args); err != nil {
 			return
 		}
